@@ -58,6 +58,11 @@ def gen(ch, tier):
             # without an MTU the bundle must fit one UDP datagram at all
             plen = min(plen, 65000)
         sends.append(dict(src=ch.choice('src', ('U1', 'U1', 'U2')), plen=plen, tag=ix + 1, t=1000 * ch.pick('t', 3000)))
+    if ch.coin('equal-run', 1, 10):
+        # a long-lived sender: thirty bundles of one size, so that its transfer numbers cross a CBOR head boundary (23 -> 24)
+        mtu = ch.choice('equal.mtu', (400, 1000))
+        size = ch.choice('equal.len', (2000, 3500))
+        sends = [dict(src='U1', plen=size, tag=ix + 30, t=50000 * ix + 1000) for ix in range(30)]
     foreign = []
     for ix in range(ch.weighted('nforeign', (2, 2, 1))):
         parts = []
